@@ -6,7 +6,10 @@ from c05 import merged_items, single_elem
 
 TARGETS = [b"", b"tgt", b"sub/tgt", b"tgt/", b"./tgt", b"missing/deep"]
 EXT_LISTS = [[], [b".go"], [b".go", b".md", b"Makefile"], [b"o", b".go"], [b"Makefile"], [b""], [b"a"],
-             [b".go", b" .md"], [b".md ", b"\t.go"], [b"", b".md"]]      # entries are compared as given: no trimming
+             [b".go", b" .md"], [b".md ", b"\t.go"], [b"", b".md"],      # entries are compared as given: no trimming
+             [b".go", b".md", b".go"], [b".md", b".md"],                  # duplicates
+             # a long list with entries that are not "the last dot segment" of a name
+             [b".go", b".md", b".txt", b".c", b".h", b".py", b".rs", b".js", b"Makefile", b".tar.gz", b"file"]]
 
 
 def clean_target(t):
